@@ -2,6 +2,7 @@ package mp
 
 import (
 	"fmt"
+	"io"
 	"math"
 	"math/big"
 
@@ -9,7 +10,6 @@ import (
 	"github.com/tuneinsight/lattigo/v6/multiparty"
 	"github.com/tuneinsight/lattigo/v6/ring"
 
-	"verif/uni"
 )
 
 // Flood returns the noise-flooding distribution of standard deviation sigma, truncated at 6 sigma
@@ -44,6 +44,9 @@ func KSOps(params rlwe.Parameters, sig, key string, level int, agg func(a, b mul
 			err = r.UnmarshalBinary(data)
 			return
 		},
+		Stream: func(a multiparty.KeySwitchShare, wrap func(io.Reader) io.Reader) (multiparty.KeySwitchShare, error) {
+			return StreamHop[multiparty.KeySwitchShare](a, wrap)
+		},
 		Flat: func(a multiparty.KeySwitchShare) Flat {
 			return Flat{Tag: fmt.Sprintf("ks|lvl=%d", a.Value.Level()), Rows: RowsQ(nil, params.RingQ(), a.Value)}
 		},
@@ -77,7 +80,7 @@ func LinearResidual(params rlwe.Parameters, share, c1 ring.Poly, isNTT bool, key
 	el := &rlwe.Element[ring.Poly]{Value: []ring.Poly{share, *c1.CopyNew()}, MetaData: &rlwe.MetaData{}}
 	el.Value[1].Resize(lvl)
 	el.IsNTT = isNTT
-	return uni.Phase(params, el, key)
+	return Phase(params, el, key)
 }
 
 // DiffKeys returns a - b as an rlwe.SecretKey (Q part only is meaningful for phases).
